@@ -250,7 +250,7 @@ func (e *Engine) isMatchCompositeSearcher(haystack []byte) bool {
 		atomic.AddUint64(&e.stats.DFASearches, 1)
 		return e.compositeSequenceDFA.IsMatch(haystack)
 	}
-	if e.compositeSearcher == nil {
+	if e.compositeSearcher == nil || len(haystack) > maxCompositeBacktrackLen {
 		return e.isMatchNFA(haystack)
 	}
 	atomic.AddUint64(&e.stats.NFASearches, 1)
